@@ -190,14 +190,15 @@ func (e *scanEnv) handle(idx int, s, end *big.Int) error {
 	fail := e.rounds[e.pos].fail == idx
 	pan := e.rounds[e.pos].panicAt == idx
 	cb := e.onCall
-	if pan && e.kind == "sub" {
-		// the sygma-core Substrate listener runs its loop in a goroutine of its own: a real panic there cannot be
-		// intercepted by the harness and would kill it, so the death is enacted directly
-		e.die()
-	}
 	e.mu.Unlock()
 	if cb != nil {
 		cb(idx, new(big.Int).Set(s), new(big.Int).Set(end))
+	}
+	if pan && e.kind == "sub" {
+		// the sygma-core Substrate listener runs its loop in a goroutine of its own: a real panic there cannot be
+		// intercepted by the harness and would kill it, so the death is enacted directly
+		e.mu.Lock()
+		e.die()
 	}
 	if pan {
 		panic("scripted handler panic")
@@ -271,7 +272,7 @@ func (c evmScanClient) LatestBlock() (*big.Int, error) {
 	if h == "E" || h == "F" {
 		return nil, errors.New("rpc down")
 	}
-	return big.NewInt(i64(h)), nil
+	return bigArg(h), nil
 }
 
 type rangeScanHandler struct {
